@@ -221,6 +221,17 @@ func runTxn(t *testing.T, tk []string) string {
 	var faultsOn atomic.Bool
 	faultsOn.Store(true)
 	txnFaults(net, cluster, log, seed, faultpct, &faultsOn, []int16{0, 22, 24, 25, 26, 28})
+	var initDown atomic.Bool
+	cluster.ControlKey(22, func(kreq kmsg.Request) (kmsg.Response, error, bool) {
+		cluster.KeepControl()
+		if !initDown.Load() {
+			return nil, nil, false
+		}
+		resp := kreq.ResponseKind().(*kmsg.InitProducerIDResponse)
+		resp.ErrorCode = kerr.CoordinatorLoadInProgress.Code
+		resp.ProducerID, resp.ProducerEpoch = -1, -1
+		return resp, nil, true
+	})
 	ctx, cancel := context.WithCancel(context.Background())
 	defer cancel()
 	common := []kgo.Opt{kgo.SeedBrokers(cluster.ListenAddrs()...), kgo.Dialer(net.Stack.DialContext),
@@ -288,6 +299,23 @@ func runTxn(t *testing.T, tk []string) string {
 		if err != nil {
 			log.Add("Te:%d:%s:err", k, c)
 			hx.St.Inc("scen.txn.end-error")
+			// the application's documented reaction to a failed End (OperationNotAttempted, TransactionAbortable, an
+			// unconfirmed outcome): retry with TryAbort -- in half of the retries while the transaction coordinator is
+			// still unavailable (InitProducerID answered COORDINATOR_LOAD_IN_PROGRESS until the retry has returned).
+			// What End reported for transaction k stays the error; the retry (Tr) only moves the client on.
+			if wr.Chance(60) {
+				down := wr.Bool()
+				if down {
+					initDown.Store(true)
+					hx.St.Inc("scen.txn.abort-retry-during-coordinator-outage")
+				}
+				rctx, rc := context.WithTimeout(ctx, 15*time.Second)
+				rerr := cl.EndTransaction(rctx, kgo.TryAbort)
+				rc()
+				initDown.Store(false)
+				log.Add("Tr:%d:%s", k, map[bool]string{true: "ok", false: "err"}[rerr == nil])
+				hx.St.Inc("scen.txn.abort-retry")
+			}
 		} else {
 			log.Add("Te:%d:%s:ok", k, c)
 		}
